@@ -2,7 +2,12 @@
 (* Scenario generator for C11.  A scenario is a sequence of inputs to the block relay and the     *)
 (* proposal preparer: configuration fetches (ConfigFetch of BlockRelay decides what is active),   *)
 (* registration rounds with the accounts and the failing signing requests / relays / nodes,       *)
-(* preparation rounds with the nodes' replies, and registrations arriving over REST.  What the    *)
+(* preparation rounds with the nodes' replies, and registrations arriving over REST - each with   *)
+(* a latency script (lat) that decides how the calls of a fan-out overlap: "none" = every relay   *)
+(* and node answers at once; "slow" = the failing ones answer at once, the healthy ones only      *)
+(* afterwards (the schedule RelayStart(a) RelayStart(b) RelayFinish(a,"err") ... RelayFinish(b)   *)
+(* of BlockRelay); "batched" = as slow, and a relay receives its payload one registration at a    *)
+(* time (RelayDeliver per registration).  What the                                                *)
 (* code does inside a round (order of signing requests and of the parallel submissions) is the    *)
 (* code's own nondeterminism: it is recorded in the trace and judged by Trace_BlockRelay_C11.     *)
 (* nk is the kind of the next step, chosen one step ahead so that TLC's uniform choice among      *)
@@ -36,6 +41,7 @@ WantedPairs(accts) ==
     UNION {{<<v, t[2], t[3]>> : t \in Resolve(active, v).rel} : v \in {a \in accts : Resolve(active, a).ok}}
 
 AcctSets == (SUBSET Validators) \ {{}}
+Lats == {"none", "slow", "batched"}
 
 FetchStep ==
     \E out \in Outcomes :
@@ -45,18 +51,18 @@ FetchStep ==
 RoundStep ==
     \E accts \in IF Matrix THEN {Validators} ELSE AcctSets :
       \E sf \in {S \in SUBSET WantedPairs(accts) : Cardinality(S) <= MaxSignFail},
-         rf \in SUBSET Relays, nf \in SUBSET Nodes :
-        /\ H([ev |-> "Round", accts |-> accts, signfail |-> sf, relayfail |-> rf, nodefail |-> nf])
+         rf \in SUBSET Relays, nf \in SUBSET Nodes, lat \in Lats :
+        /\ H([ev |-> "Round", accts |-> accts, signfail |-> sf, relayfail |-> rf, nodefail |-> nf, lat |-> lat])
         /\ UNCHANGED vars
 
 PrepStep ==
-    \E accts \in AcctSets, po \in [Nodes -> {"ok", "err", "notactive"}] :
-        /\ H([ev |-> "Prep", accts |-> accts, nodeout |-> {<<n, po[n]>> : n \in Nodes}])
+    \E accts \in AcctSets, po \in [Nodes -> {"ok", "err", "notactive"}], lat \in {"none", "slow"} :
+        /\ H([ev |-> "Prep", accts |-> accts, nodeout |-> {<<n, po[n]>> : n \in Nodes}, lat |-> lat])
         /\ UNCHANGED vars
 
 FwdStep ==
-    \E regs \in {S \in SUBSET FwdCandidates : Cardinality(S) \in 1..3} :
-        /\ H([ev |-> "Fwd", regs |-> {<<x.v, x.fee, x.gas>> : x \in regs}])
+    \E regs \in {S \in SUBSET FwdCandidates : Cardinality(S) \in 1..3}, rf \in SUBSET Relays, lat \in Lats :
+        /\ H([ev |-> "Fwd", regs |-> {<<x.v, x.fee, x.gas>> : x \in regs}, relayfail |-> rf, lat |-> lat])
         /\ UNCHANGED vars
 
 \* TLC's simulator evaluates the invariants on every candidate successor: the closing step has a single
@@ -70,7 +76,7 @@ SNext ==
     /\ IF History
        THEN /\ \/ Len(hist) % 2 = 1 /\ (\E k \in DocIds : ConfigFetch([t |-> "good", doc |-> k])
                                                          /\ H([ev |-> "Fetch", out |-> "good", doc |-> k]))
-               \/ Len(hist) % 2 = 0 /\ H([ev |-> "Round", accts |-> Validators, signfail |-> {}, relayfail |-> {}, nodefail |-> {}])
+               \/ Len(hist) % 2 = 0 /\ H([ev |-> "Round", accts |-> Validators, signfail |-> {}, relayfail |-> {}, nodefail |-> {}, lat |-> "none"])
                                       /\ UNCHANGED vars
             /\ nk' = nk
        ELSE IF Matrix
